@@ -1,8 +1,11 @@
 (* C05: case encoding for the correspondence run (see Model/TrieCase.v for the format).
    sub 0 = model output; sub 1 = canonical specification output (informative; FuzzySearch = WILD);
-   sub 2 = relational judge on put_list case ++ put_list implementation-output. *)
+   sub 2 = relational judge on put_list case ++ put_list implementation-output.
+   A case with a trailing 1 after the text asks for the Dump observation as well (Model/TrieDump.v): the output is the
+   output of the same case without the flag, followed by the built structure (node table in pre-order); the judge
+   compares that part with the automaton of the inserted patterns computed from the byte strings alone. *)
 From Coq Require Import List ZArith Bool.
-From V Require Import Lib.Enc Model.Trie Model.TrieCase.
+From V Require Import Lib.Enc Model.Trie Model.TrieCase Model.TrieDump.
 Import ListNotations.
 Local Open Scope Z_scope.
 
@@ -16,18 +19,38 @@ Definition dec_case (args : list Z) : option (list op * bytes) :=
   | [] => None
   end.
 
+(* the same case followed by the Dump flag *)
+Definition dec_case_dump (args : list Z) : option (list op * bytes) :=
+  match args with
+  | n :: r => match get_ops (Z.to_nat n) r with
+              | Some (ops, q) => let (text, rest) := get_list q in
+                                 match rest with [1] => Some (ops, text) | _ => None end
+              | None => None
+              end
+  | [] => None
+  end.
+
 Definition entry (sub : Z) (args : list Z) : list Z :=
   if sub =? 2 then
     let (cs, r) := get_list args in
     let (out, _) := get_list r in
     match dec_case cs with
     | Some (ops, text) => [zb (c05_ok ops text out)]
-    | None => [BADCASE]
+    | None => match dec_case_dump cs with
+              | Some (ops, text) => [zb (c05_ok_dump ops text out)]
+              | None => [BADCASE]
+              end
     end
   else
     match dec_case args with
     | Some (ops, text) => if sub =? 0 then c05_model ops text else if sub =? 1 then c05_spec ops text else [BADCASE]
-    | None => [BADCASE]
+    | None => match dec_case_dump args with
+              | Some (ops, text) =>
+                  if sub =? 0 then c05_model_dump ops text
+                  else if sub =? 1 then c05_spec ops text ++ enc_dump (spec_dump (inserted ops))
+                  else [BADCASE]
+              | None => [BADCASE]
+              end
     end.
 
 (* in-kernel anchors *)
@@ -36,4 +59,28 @@ Example anchor1 : entry 0 [4; 0;1;97; 0;2;97;98; 0;2;98;99; 1;0; 3;97;98;99]
   = [1; 3; 1;97; 2;97;98; 2;98;99; 0; 1; 2;98;99].
 Proof. vm_compute. reflexivity. Qed.
 Example anchor1s : entry 2 ([18; 4; 0;1;97; 0;2;97;98; 0;2;98;99; 1;0; 3;97;98;99] ++ [15; 1; 3; 1;97; 2;97;98; 2;98;99; 0; 1; 2;98;99]) = [1].
+Proof. vm_compute. reflexivity. Qed.
+(* the same case with the Dump flag: the same output, then the structure.  Pre-order: root, a, ab, b, bc;
+   node = word, isEnd, size, number of children, fail (-1 = nil, 0 = the root, 1 98 = node "b") *)
+Example anchor1d : entry 0 [4; 0;1;97; 0;2;97;98; 0;2;98;99; 1;0; 3;97;98;99; 1]
+  = [1; 3; 1;97; 2;97;98; 2;98;99; 0; 1; 2;98;99] ++
+    [-1000020; 5;  0; 0;0;2; -1;   1;97; 1;1;1; 0;   2;97;98; 1;2;0; 1;98;   1;98; 0;1;1; 0;   2;98;99; 1;2;0; 0].
+Proof. vm_compute. reflexivity. Qed.
+(* the specification side computes the same structure from the byte strings alone, and the judge accepts it *)
+Example anchor1ds : entry 1 [4; 0;1;97; 0;2;97;98; 0;2;98;99; 1;0; 3;97;98;99; 1]
+  = [1; 3; 1;97; 2;97;98; 2;98;99; 0; -1000006] ++
+    [-1000020; 5;  0; 0;0;2; -1;   1;97; 1;1;1; 0;   2;97;98; 1;2;0; 1;98;   1;98; 0;1;1; 0;   2;98;99; 1;2;0; 0].
+Proof. vm_compute. reflexivity. Qed.
+Example anchor1dj : entry 2 (put_list [4; 0;1;97; 0;2;97;98; 0;2;98;99; 1;0; 3;97;98;99; 1] ++
+   put_list (entry 0 [4; 0;1;97; 0;2;97;98; 0;2;98;99; 1;0; 3;97;98;99; 1])) = [1].
+Proof. vm_compute. reflexivity. Qed.
+(* a wrong fail link ("ab" -> root instead of "b") is rejected *)
+Example anchor1dj_bad : entry 2 (put_list [4; 0;1;97; 0;2;97;98; 0;2;98;99; 1;0; 3;97;98;99; 1] ++
+   put_list ([1; 3; 1;97; 2;97;98; 2;98;99; 0; 1; 2;98;99] ++
+    [-1000020; 5;  0; 0;0;2; -1;   1;97; 1;1;1; 0;   2;97;98; 1;2;0; 0;   1;98; 0;1;1; 0;   2;98;99; 1;2;0; 0])) = [0].
+Proof. vm_compute. reflexivity. Qed.
+(* multi-byte runes and an invalid byte (value invalidByteBase + 0xff = 1114367), an insert after the build (nil links) *)
+Example anchor2d : entry 0 [4; 0;3;228;184;173; 0;1;255; 1;0; 0;2;255;97; 0; 1]
+  = [0; 0; 3; 1;255; 2;255;97; 3;228;184;173; 3; 1;255; 2;255;97; 3;228;184;173] ++
+    [-1000020; 4;  0; 0;0;2; -1;   1;20013; 1;3;0; 0;   1;1114367; 1;1;1; 0;   2;1114367;97; 1;2;0; -1].
 Proof. vm_compute. reflexivity. Qed.
